@@ -7,9 +7,10 @@ Followed program point by program point from
   of the results: `name` = rel path, `coverage` = for line in 1..end (end = last key + 1 as u32:
   the `+ 1` overflows at 2^32-1: panic with overflow checks, `end = 0` without), `branches` = the
   flat (line, 0, n, taken) quadruples, and for coveralls+ `functions` = [{name,start,exec}] in the
-  iteration order of the function map. `source_digest` is md5 of the file content or a random
+  order the table is given: the writer walks `sorted_functions` (name order, 73c9152) and prints
+  demangled names – `Writers/FnOrder.lean` (`FnOrder.coveralls dm`) applies this model to the listed record. `source_digest` is md5 of the file content or a random
   UUID, `git`/`repo_token`/`service_*` are parameters passed through: not modelled (opaque).
-  Demangling is off (the demangler is an opaque function, see the lcov model).
+  The demangler is the parameter `dm` of `Writers/FnOrder.lean`.
 * src/output.rs `output_covdir` (184-239) + src/covdir.rs: every result is filed under the
   directory chain of `path` = rel path if relative, else abs path. `relative` maps a directory
   path (compared *component-wise*, `PathBuf: Eq`) to its node; missing ancestors are created from
@@ -35,7 +36,7 @@ Followed program point by program point from
   of `files`.
 
 Lists of (key, value) pairs stand for the maps in their iteration order (`BTreeMap`: ascending
-keys; the function map is an `FxHashMap`: any order, the driver prints it sorted).
+keys; the function table: in listing order, see `Writers/FnOrder.lean`).
 `none` is "the writer panics". Core Lean only.
 -/
 import GrcovModel.Writers
